@@ -176,6 +176,15 @@ _add("C12", H("H12_syn", quick={"wall": "140s", "shards": 16, "param": "fixSyn=3
 # external ids of different lengths / prefix relations for DocNumbers, DocID
 _add("C02", H("H02_ids"))
 
+# a multi-valued field whose later value has more distinct terms than an earlier one (location order)
+_add("C01", H("H01_shape", quick={"wall": "140s", "shards": 8, "param": "lite=1,liteMulti=1"}, thorough={"skip": True}))
+# stored sections above 64 KiB visited while the segment is shared (effect monitor; native: two concurrent visitors)
+_add("C11", H("H11_big", common={"race": True}))
+# a term defined with an empty synonym list
+_add("C12", H("H12_syn", quick={"wall": "140s", "shards": 8, "param": "maxSyn=1,emptyDef=1"}, thorough={"wall": "1500s", "shards": 16, "param": "maxSyn=2,emptyDef=1"}))
+# the other order of the section table (the inverted section merged last)
+_add("C18", H("H18_cancel", common={"reverse-maps": True}, quick={"wall": "100s"}))
+
 # thorough wall budgets: the first budgeted run of a property gets 600 s, the others 240 s (a thorough check
 # also repeats the quick configurations, which are exhaustive inside their bounds)
 for _pid in PLAN:
